@@ -124,18 +124,35 @@ def parse_via_display(F, body):
     except Exception:
         return False
     a = single_atom(v) if isinstance(v, Poly) else None
-    if not (a and atom_fn(a) in ("std::option::Option::<T>::ok_or", "std::option::Option::<T>::ok_or_else")):
+    from ..symx import unkey
+    if a and atom_fn(a) == "match" and len(a) == 4 and isinstance(atom_args(a)[0], Poly):
+        # o.ok_or(e) in normal form: match o { Some(v) => Ok(v), None => Err(e) }
+        arms = {k: unkey(x) for k, x in a[3]}
+        o_ = atom_args(a)[0]
+        some = [k for k in arms if k.startswith("('Some'")]
+        none = [k for k in arms if k not in some]
+        if not (len(some) == 1 and len(none) == 1 and arms[some[0]] == ("ctor", "Ok", [app("payload0", o_)]) and
+                isinstance(arms[none[0]], tuple) and arms[none[0]][:2] == ("ctor", "Err")):
+            return False
+        f = single_atom(o_)
+    elif not (a and atom_fn(a) in ("std::option::Option::<T>::ok_or", "std::option::Option::<T>::ok_or_else")):
         return False
-    f = single_atom(atom_args(a)[0]) if isinstance(atom_args(a)[0], Poly) else None
+    else:
+        f = single_atom(atom_args(a)[0]) if isinstance(atom_args(a)[0], Poly) else None
     if not (f and atom_fn(f) == "std::iter::Iterator::find"):
         return False
     src, clo = f[2], f[3]
     if src != ("iterdesc", ("elems", ("P", app("clap::ValueEnum::value_variants")))):
         return False
-    node = F.closures.get(clo[1]) if isinstance(clo, tuple) and clo[0] == "closure" else None
-    if node is None:
+    from ..idioms import as_closure
+    from ..symx import Unsupported
+    try:
+        clv = as_closure(F, t, clo)
+    except Unsupported:
         return False
-    pv = Tracer(F, "NONE").apply(("closure", node, dict(t.closure_envs.get(clo[1], {}))), [var("c")])
+    if not (isinstance(clv, tuple) and clv and clv[0] == "closure"):
+        return False
+    pv = Tracer(F, "NONE").apply(clv, [var("c")])
     c, pol = canon_cond(pv, True) if isinstance(pv, Poly) else (None, None)
     ca = single_atom(c) if isinstance(c, Poly) else None
     if not (ca and atom_fn(ca) in ("eq", "op_eq") and pol):
